@@ -46,6 +46,17 @@ def cases(tier, seed):
             spec["target"] = {"kind": "scripted", "c": spec["target"]["c"], "where": "in",
                               "search": pats[int(rng.integers(len(pats)))], "poll": pats[int(rng.integers(len(pats)))], "other": "F"}
         out.append({"spec": spec})
+    # tol_mesh given as an EXACT power of two (what users write: 2**-k, 0.125, 1/64): the conversion of the tolerance onto
+    # the mesh lattice must not be one step off; every k appears, with and without mesh acceleration
+    g = 0
+    for k in range(1, 15 if tier == "quick" else 27):
+        for acc in (True, False):
+            rng = gen.rng_for(seed, "C13", 500000 + g)
+            g += 1
+            spec = gen.make_spec(rng, D=int(rng.choice([1, 2])), geom="lin", x0mode="in", land=str(rng.choice(["l1", "ramp", "stair"])), where=str(rng.choice(["in", "out"])),
+                                 mode="det", options={"tol_mesh": 2.0 ** -k, "accelerate_mesh": acc, "tol_stall_iters": 60, "search_n_try": int(rng.choice([0, 1]))},
+                                 max_fun_evals=400)
+            out.append({"spec": spec})
     # mesh rules show after many polls: longer runs, and steep non-smooth cones so that the mesh is refined far down
     for c in C.option_variation_slice("C13", tier, seed, gen_kw=dict(lands=("l1", "l1", "rosen"), budgets=(170,))):
         if c["optvar"][0] not in ("tol_fun", "tol_stall_iters"):
